@@ -231,6 +231,16 @@ Definition cfi_wf (i : cfi) : bool :=
   | ArgsSize n => is_u32 n
   end.
 
+(* the operand of an instruction that the writer has to divide by the data alignment factor *)
+Definition factored_operand (i : cfi) : option Z :=
+  match i with
+  | Cfa _ o | CfaOffset o => if (o <? 0)%Z then Some o else None
+  | Offset _ o | ValOffset _ o => Some o
+  | _ => None
+  end.
+(* o = q * daf with q an i32 *)
+Definition factorable (daf o : Z) : Prop := exists q, daf <> 0%Z /\ (q * daf)%Z = o /\ is_i32 q = true.
+
 (* ---- layout facts used by the entry_layout statements ---- *)
 Definition all_nop (bs : list byte) : bool := forallb (fun b => b2n b =? 0) bs.
 Definition is_pow2 (n : N) : bool := negb (n =? 0) && (N.land n (n - 1) =? 0).
